@@ -7,11 +7,14 @@ derived `Deserialize` for the flat struct types of `Extract.lean`, as used by
 take the JSON codec as a parameter.  The driver compares this file with the
 real server on every run.
 
-Faithful to the code as it stands: `http_request_load_body` calls
-`serde_path_to_error::deserialize(&mut Deserializer::from_slice(body))` and
-never `Deserializer::end()`, so bytes after the first complete JSON value are
-not looked at (`decodeAsIs`); `decodeStrict` is the RFC 8259 reading (only
-whitespace may follow), used as the specification.
+`http_request_load_body` calls
+`serde_path_to_error::deserialize(&mut Deserializer::from_slice(body))` and then
+`Deserializer::end()`: the first JSON value is decoded into the type, then only
+whitespace may follow (`decode`).  `decodeStrict` is the RFC 8259 reading used
+as the specification (one value surrounded by optional whitespace, of the
+type).  Before the repair of finding K10a (commit 15a2707) `end()` was not
+called and bytes after the first value were not looked at: `decodeAsIs`, kept
+for the regression witness `C10.decodeAsIs_fails`.
 
 Not modelled: the recursion limit (128), `arbitrary_precision`, the laxer
 syntax check serde_json applies to values of *unknown* fields (`ignore_value`
@@ -269,8 +272,19 @@ def deStructJ (fs : List (Bytes × FTy)) : JVal → Except DeErr Val
   | .arr vs => dePositional fs vs
   | _ => .error .shape
 
-/-- What the server does with a JSON body of struct type `fs` (as the code
-stands: nothing after the first value is examined). -/
+/-- What the server does with a JSON body of struct type `fs`: decode the first
+value into the type (`serde_path_to_error::deserialize`), then
+`Deserializer::end()`: anything but whitespace after it is an error. -/
+def decode (fs : List (Bytes × FTy)) (body : Bytes) : Except BodyErr Val :=
+  match parseFirst body with
+  | none => .error .json
+  | some (v, rest) =>
+    match deStructJ fs v with
+    | .error e => .error (.decode e)
+    | .ok x => if skipWs rest ≠ [] then .error .json else .ok x
+
+/-- As the code stood before the repair of K10a: nothing after the first value
+is examined. -/
 def decodeAsIs (fs : List (Bytes × FTy)) (body : Bytes) : Except BodyErr Val :=
   match parseFirst body with
   | none => .error .json
@@ -279,8 +293,8 @@ def decodeAsIs (fs : List (Bytes × FTy)) (body : Bytes) : Except BodyErr Val :=
     | .ok x => .ok x
     | .error e => .error (.decode e)
 
-/-- The RFC 8259 reading: the body is one JSON value, optionally surrounded by
-whitespace. -/
+/-- The RFC 8259 reading (the specification): the body is one JSON value,
+optionally surrounded by whitespace, and that value is of the type. -/
 def decodeStrict (fs : List (Bytes × FTy)) (body : Bytes) : Except BodyErr Val :=
   match parseFirst body with
   | none => .error .json
@@ -290,8 +304,8 @@ def decodeStrict (fs : List (Bytes × FTy)) (body : Bytes) : Except BodyErr Val 
       | .ok x => .ok x
       | .error e => .error (.decode e)
 
-/-- Excluded-region predicate of finding K10a: a complete, well-typed JSON
-value followed by something other than whitespace. -/
+/-- A complete, well-typed JSON value followed by something other than
+whitespace (the inputs of the repaired finding K10a; now a class label). -/
 def trailingGarbage (fs : List (Bytes × FTy)) (body : Bytes) : Bool :=
   match parseFirst body with
   | some (v, rest) =>
